@@ -404,6 +404,12 @@ func init() {
 		}
 		return &Val{K: vNone}
 	})
+	for _, nm := range []string{"(*sync.Mutex).Lock", "(*sync.Mutex).Unlock", "(*sync.WaitGroup).Wait", "(*sync.WaitGroup).Add", "(*sync.WaitGroup).Done", "(*sync.Cond).Signal", "(*sync.Cond).Broadcast", "(*sync.Cond).Wait"} {
+		nm := nm
+		reg(nm, nm+": no effect on the sequential model (interleavings are outside the family; see DESIGN)", func(fr *Frame, st *State, callee *ssa.Function, args []*Val, pos token.Pos, resTy types.Type) *Val {
+			return fr.syncOp(nm, st, args, pos)
+		})
+	}
 	reg("encoding/json.Unmarshal", "json.Unmarshal(data, &v): total; v becomes unconstrained; error unconstrained", func(fr *Frame, st *State, callee *ssa.Function, args []*Val, pos token.Pos, resTy types.Type) *Val {
 		u := fr.u
 		// target: interface holding a pointer; havoc the cells of *any it may point to
